@@ -54,8 +54,8 @@ func init() {
 
 	propTable["C04"].KeyFilter["STICKYFLAG"] = keyHas("ExpressionOptimizer")
 
-	prop("C05", []string{"ADJUSTCALL", "CACHECOPY", "ROWCACHE", "CHUNKKEY", "LOCKSTEP", "LISTCOVER", "ASTIMMUT", "FRESHROWS", "ADJUSTCOVER"},
-		"Structural necessary conditions of C05: ROWCACHE (no per-row cache entry written for one row can be read for another: every loop feeding different rows to an evaluator through one context clears it per row or passes no context), ADJUSTCALL (the chunk cache is re-indexed by exactly the rows that passed, with a cumulative index), CACHECOPY (cache entries never alias evaluation results), CHUNKKEY (chunk cache keys frame alias name and first key), LOCKSTEP (one column per announced name), LISTCOVER(project) (row-mode projection lets through every column kind). FRESHROWS (returned rows own their storage). ADJUSTCOVER (every cache is emptied by Clear; every per-chunk cache is re-indexed or emptied when the chunk is filtered).",
+	prop("C05", []string{"ADJUSTCALL", "CACHECOPY", "ROWCACHE", "CHUNKKEY", "LOCKSTEP", "LISTCOVER", "ASTIMMUT", "FRESHROWS", "ADJUSTCOVER", "EVALBOTH"},
+		"Structural necessary conditions of C05: ROWCACHE (no per-row cache entry written for one row can be read for another: every loop feeding different rows to an evaluator through one context clears it per row or passes no context), ADJUSTCALL (the chunk cache is re-indexed by exactly the rows that passed, with a cumulative index), CACHECOPY (cache entries never alias evaluation results), CHUNKKEY (chunk cache keys frame alias name and first key), LOCKSTEP (one column per announced name), LISTCOVER(project) (row-mode projection lets through every column kind). FRESHROWS (returned rows own their storage). ADJUSTCOVER (every cache is emptied by Clear; every per-chunk cache is re-indexed or emptied when the chunk is filtered). EVALBOTH (every chunk appends its alias values to the per-alias column: a vectorised AND/OR that skips its right operand leaves the column one chunk short and every later index shifted).",
 		"Equality with the alias-expanded query needs execution.")
 	propTable["C05"].KeyFilter["LISTCOVER"] = keyHas("|project|")
 
@@ -63,8 +63,8 @@ func init() {
 		"The panic and non-termination classes whose absence is visible in the shape of the code: ASSERT (no unchecked type assertion without a dominating test or a checked side condition), ARITY (no body is called with fewer arguments than it indexes), DIVGUARD (integer division guarded), USERIDX (slices/indexes driven by user numbers or error offsets are bounded against the sliced value's length and ordered), BODYKIND (the constant folder's assertions are safe), ADJUSTCALL (chunk cache indexes stay in range), FETCHLOOPEND (every fetch loop stops at end of stream), ERRPROP (storage errors are values). EVALBOTH (the chunk cache always holds the current chunk's alias values before the scan re-indexes it). ADJUSTCOVER (a stale per-chunk entry is longer than the filtered chunk: index out of range in the projection).",
 		"General index bounds, nil dereference, alias cycles (stack exhaustion) and termination of other loops are runtime quantities (DESIGN.md §6).")
 
-	prop("C07", []string{"ASSERT", "CMPDIR", "ORDERELIDE", "ORDERDEFAULT", "DRAINALL", "MGETSORT", "NOROWDROP", "FRESHROWS"},
-		"Structural necessary conditions of C07: ASSERT on the comparators (ORDER BY cannot crash on mixed kinds), CMPDIR (each comparator returns -1 exactly on l<r, resp. l>r when reversed, compares integers as integers, and Less maps negative to true with the heap's operand order), ORDERELIDE (the sort is skipped only for a lone `order by key asc` without aggregates, relying on MGETSORT/cursor order), ORDERDEFAULT (each order field gets its own direction, ASC by default), DRAINALL/NOROWDROP (every child row is pushed exactly once and popped while pos < total). FRESHROWS (the sort keeps rows of all child batches: they must own their storage).",
+	prop("C07", []string{"ASSERT", "CMPDIR", "ORDERELIDE", "ORDERDEFAULT", "DRAINALL", "MGETSORT", "NOROWDROP", "FRESHROWS", "TWINUSE"},
+		"Structural necessary conditions of C07: ASSERT on the comparators (ORDER BY cannot crash on mixed kinds), CMPDIR (each comparator returns -1 exactly on l<r, resp. l>r when reversed, compares integers as integers, and Less maps negative to true with the heap's operand order), ORDERELIDE (the sort is skipped only for a lone `order by key asc` without aggregates, relying on MGETSORT/cursor order), ORDERDEFAULT (each order field gets its own direction, ASC by default), DRAINALL/NOROWDROP (every child row is pushed exactly once and popped while pos < total). FRESHROWS (the sort keeps rows of all child batches: they must own their storage). TWINUSE (the comparator classifies both operands alike: integer-or-float is not decided from the left operand alone).",
 		"That the comparator is a total order per type and that heap order equals sorted order need execution.")
 	propTable["C07"].KeyFilter["ASSERT"] = keyHas("orderColumnsRow", "FinalOrderPlan")
 	propTable["C07"].KeyFilter["NOROWDROP"] = keyHas("FinalOrderPlan")
@@ -74,14 +74,14 @@ func init() {
 		"The count arithmetic over refills is a runtime quantity.")
 	propTable["C08"].KeyFilter["RMGUARD"] = keyHas("no-limit")
 
-	prop("C09", []string{"AGGRSEM", "CLONEFRESH", "ROWCLONE", "KEYFRAME", "RESULTIDX", "PRIMWIRE", "ARITY", "ROWCACHE", "REORDERGUARD", "FOLDKIND", "AGGRALLFLAG", "PARSEARGS"},
-		"Structural necessary conditions of C09: KEYFRAME (group keys frame their components, so distinct tuples never collide), ROWCLONE/CLONEFRESH (each group owns fresh accumulators), AGGRSEM (count/sum/avg/min/max update and complete according to their definitions, integers compared as integers), RESULTIDX (each aggregate's result is substituted into its own call node), PRIMWIRE (each aggregate name has its own constructor and accumulator type), ARITY (constructors index only guaranteed arguments), ROWCACHE (values cached for one pair are not reused for another while grouping). AGGRALLFLAG (one group for all pairs exactly when there is no GROUP BY), FOLDKIND/REORDERGUARD (arithmetic around aggregates is not rewritten unsoundly). PARSEARGS (the integer image of a textual number comes from ParseInt; ParseFloat is only the fallback).",
+	prop("C09", []string{"AGGRSEM", "CLONEFRESH", "ROWCLONE", "KEYFRAME", "RESULTIDX", "PRIMWIRE", "ARITY", "ROWCACHE", "REORDERGUARD", "FOLDKIND", "AGGRALLFLAG", "PARSEARGS", "ADJUSTCOVER"},
+		"Structural necessary conditions of C09: KEYFRAME (group keys frame their components, so distinct tuples never collide), ROWCLONE/CLONEFRESH (each group owns fresh accumulators), AGGRSEM (count/sum/avg/min/max update and complete according to their definitions, integers compared as integers), RESULTIDX (each aggregate's result is substituted into its own call node), PRIMWIRE (each aggregate name has its own constructor and accumulator type), ARITY (constructors index only guaranteed arguments), ROWCACHE (values cached for one pair are not reused for another while grouping). AGGRALLFLAG (one group for all pairs exactly when there is no GROUP BY), FOLDKIND/REORDERGUARD (arithmetic around aggregates is not rewritten unsoundly). PARSEARGS (the integer image of a textual number comes from ParseInt; ParseFloat is only the fallback). ADJUSTCOVER (no by-position alias column of the unfiltered chunk survives into the evaluation of GROUP BY expressions on the filtered chunk).",
 		"The arithmetic of the accumulators on concrete values needs execution.")
 	propTable["C09"].KeyFilter["PRIMWIRE"] = keyHas("aggr")
 	propTable["C09"].KeyFilter["ROWCACHE"] = keyHas("AggregatePlan")
 
-	prop("C10", []string{"LISTCOVER", "BODYKIND", "PRIMWIRE", "ARITY", "ASTIMMUT", "TWINPRIM", "ERRALL", "ROWINDEX", "FOLDKIND", "FOLDERR", "FOLDFLAGS", "STICKYFLAG", "ROWCARRY", "PARSEARGS", "IFACEEQ", "ROWALIAS", "ARGFRESH", "ARMTWIN", "FOLDRET"},
-		"Structural necessary conditions of C10: PRIMWIRE (each documented function is registered under its name and both bodies reach the documented primitive on the text argument, base 10, with the length check for distances; no two names share a body except the documented aliases), BODYKIND (bodies return their declared kinds, identically in both modes), LISTCOVER (every list consumer handles every list representation, in both modes), ARITY, ASTIMMUT (constant arguments behave like row-dependent ones: no state is kept in the tree), TWINPRIM (row and vector bodies reach the same primitives). ROWINDEX/ROWCARRY (vector bodies read row-dependent arguments per row), FOLDKIND/FOLDERR/FOLDFLAGS/STICKYFLAG(call folding) (a call with constant arguments is folded only when all arguments are literals, evaluation succeeded, and to a literal of the returned kind, so constants and row-dependent arguments agree). PARSEARGS, IFACEEQ, ROWALIAS, ARGFRESH (bodies read numbers uniformly, compare numerically, build one fresh result per row and never write into their arguments). ARMTWIN (conversions treat string and []byte text alike). FOLDRET (the folder's `is a literal` flags are constants tied to freshly built literal nodes).",
+	prop("C10", []string{"LISTCOVER", "BODYKIND", "PRIMWIRE", "ARITY", "ASTIMMUT", "TWINPRIM", "ERRALL", "ROWINDEX", "FOLDKIND", "FOLDERR", "FOLDFLAGS", "STICKYFLAG", "ROWCARRY", "PARSEARGS", "IFACEEQ", "ROWALIAS", "ARGFRESH", "ARMTWIN", "FOLDRET", "CACHECOPY"},
+		"Structural necessary conditions of C10: PRIMWIRE (each documented function is registered under its name and both bodies reach the documented primitive on the text argument, base 10, with the length check for distances; no two names share a body except the documented aliases), BODYKIND (bodies return their declared kinds, identically in both modes), LISTCOVER (every list consumer handles every list representation, in both modes), ARITY, ASTIMMUT (constant arguments behave like row-dependent ones: no state is kept in the tree), TWINPRIM (row and vector bodies reach the same primitives). ROWINDEX/ROWCARRY (vector bodies read row-dependent arguments per row), FOLDKIND/FOLDERR/FOLDFLAGS/STICKYFLAG(call folding) (a call with constant arguments is folded only when all arguments are literals, evaluation succeeded, and to a literal of the returned kind, so constants and row-dependent arguments agree). PARSEARGS, IFACEEQ, ROWALIAS, ARGFRESH (bodies read numbers uniformly, compare numerically, build one fresh result per row and never write into their arguments). ARMTWIN (conversions treat string and []byte text alike). FOLDRET (the folder's `is a literal` flags are constants tied to freshly built literal nodes). CACHECOPY (the cached alias column is handed to the in-place vector bodies as a copy).",
 		"The computed values themselves need execution.")
 
 	propTable["C10"].KeyFilter["STICKYFLAG"] = keyHas("ExpressionOptimizer")
@@ -97,8 +97,8 @@ func init() {
 	propTable["C11"].KeyFilter["CONSUMED"] = keyHas("(*LimitPlan)")
 	propTable["C11"].KeyFilter["LIMITMAP"] = keyHas("LimitPlan", "parse|")
 
-	prop("C12", []string{"EXECONCE", "WRITEONCE", "PUTKEYFLOW", "KWFLAGS", "MUTSITE", "CHILDVISIT", "STMTLIST", "ROWCACHE", "RMKEYFLOW", "ERRALL"},
-		"Structural necessary conditions of C12: EXECONCE (writes happen only while executed == false, which is set on every path after they start and reset only by Init), WRITEONCE (one storage write per PUT/REMOVE, outside any loop, with every expression evaluated before it), PUTKEYFLOW (each value expression sees its own pair's evaluated key; pairs reach BatchPut in statement order, untouched by any other call), KWFLAGS and CHILDVISIT(Validate) (the static restrictions are wired and every key/value expression is checked), MUTSITE(e) (PUT only puts, REMOVE only deletes). STMTLIST (the write plans receive the statement's own pair/key list: nothing is filtered out, so every pair is evaluated and a failing one fails the statement). ROWCACHE(PutPlan/RemovePlan) (one context is not shared between the pairs of a statement without being cleared, so a value cached for one pair is not seen by the next). RMKEYFLOW (REMOVE deletes the evaluated keys, not text from the syntax tree). ERRALL(PutPlan/RemovePlan) (an error of a key or value expression is returned, not another variable).",
+	prop("C12", []string{"EXECONCE", "WRITEONCE", "PUTKEYFLOW", "KWFLAGS", "MUTSITE", "CHILDVISIT", "STMTLIST", "ROWCACHE", "RMKEYFLOW", "ERRALL", "ARGFRESH"},
+		"Structural necessary conditions of C12: EXECONCE (writes happen only while executed == false, which is set on every path after they start and reset only by Init), WRITEONCE (one storage write per PUT/REMOVE, outside any loop, with every expression evaluated before it), PUTKEYFLOW (each value expression sees its own pair's evaluated key; pairs reach BatchPut in statement order, untouched by any other call), KWFLAGS and CHILDVISIT(Validate) (the static restrictions are wired and every key/value expression is checked), MUTSITE(e) (PUT only puts, REMOVE only deletes). STMTLIST (the write plans receive the statement's own pair/key list: nothing is filtered out, so every pair is evaluated and a failing one fails the statement). ROWCACHE(PutPlan/RemovePlan) (one context is not shared between the pairs of a statement without being cleared, so a value cached for one pair is not seen by the next). RMKEYFLOW (REMOVE deletes the evaluated keys, not text from the syntax tree). ERRALL(PutPlan/RemovePlan) (an error of a key or value expression is returned, not another variable). ARGFRESH (no function writes into its argument: the key expression's bytes are the buffer PUT is about to write).",
 		"The store contents after the write depend on the caller's Storage.")
 	propTable["C12"].KeyFilter["ERRALL"] = keyHas("PutPlan", "RemovePlan")
 	propTable["C12"].KeyFilter["ROWCACHE"] = keyHas("PutPlan", "RemovePlan")
@@ -109,8 +109,8 @@ func init() {
 		"Structural necessary conditions of C13, decided for every function, path and call site of the package: MUTSITE (mutating Storage calls exist only inside the three writer plans; the closure of the SELECT builder with all methods of every plan type it can build has none; planning has none; parsing/checking reach no storage call at all), PARSEFIRST (no storage-reaching call before the parse/validate error test succeeded), ERRPROP (every error produced by a storage-reaching call is examined on every path and returned - itself or wrapped - on every failure path, with no further storage-reaching call and no loop continuation). REJECTFIRST (a statement rejected while its plan is built has not reached storage).",
 		"Nothing structural is left out; 'returns that error' is decided as 'the returned error is data-derived from it'. The caller's Storage implementation is outside the analysis.")
 
-	prop("C14", []string{"CHILDVISIT", "FUNCREG", "WHEREBOOL", "KWFLAGS", "MUTSITE", "PARSEFIRST", "LISTCOVER", "NOTWRAP", "CACHECOPY", "ADMIT", "ERRALL", "REJECTFIRST", "CHECKROUTE", "ADMITCLASS", "LISTTYPE"},
-		"Structural necessary conditions of C14: CHILDVISIT (every Expression node's Check visits every child before any success return and returns the child's error, so a fault is seen at every syntactic position; every statement's Validate reaches Check on each of its expressions and the parser returns the validation error), NOTWRAP (the parser builds a `!` node for every `!` it consumes), FUNCREG (the function-call Check consults both registries and the arity), WHEREBOOL (SELECT and DELETE both type-check the WHERE expression and require a Boolean result), KWFLAGS (PUT forbids `value`, REMOVE forbids `key`/`value`), LISTCOVER(in) (what checkWithIn admits on the right of IN is handled by both executors), MUTSITE(d)+PARSEFIRST (rejection happens before any storage access). REJECTFIRST (while the plan is built, every rejection is produced before the first storage operation, in every function of that phase including each plan's Init). CHECKROUTE (operators sharing an evaluator share a typing rule), ADMITCLASS (an operator is admitted only for the static operand types its evaluator has a case for). LISTTYPE (every IN / BETWEEN element is typed like the left operand).",
+	prop("C14", []string{"CHILDVISIT", "FUNCREG", "WHEREBOOL", "KWFLAGS", "MUTSITE", "PARSEFIRST", "LISTCOVER", "NOTWRAP", "CACHECOPY", "ADMIT", "ERRALL", "REJECTFIRST", "CHECKROUTE", "ADMITCLASS", "LISTTYPE", "NUMCOMBO", "TWINUSE"},
+		"Structural necessary conditions of C14: CHILDVISIT (every Expression node's Check visits every child before any success return and returns the child's error, so a fault is seen at every syntactic position; every statement's Validate reaches Check on each of its expressions and the parser returns the validation error), NOTWRAP (the parser builds a `!` node for every `!` it consumes), FUNCREG (the function-call Check consults both registries and the arity), WHEREBOOL (SELECT and DELETE both type-check the WHERE expression and require a Boolean result), KWFLAGS (PUT forbids `value`, REMOVE forbids `key`/`value`), LISTCOVER(in) (what checkWithIn admits on the right of IN is handled by both executors), MUTSITE(d)+PARSEFIRST (rejection happens before any storage access). REJECTFIRST (while the plan is built, every rejection is produced before the first storage operation, in every function of that phase including each plan's Init). CHECKROUTE (operators sharing an evaluator share a typing rule), ADMITCLASS (an operator is admitted only for the static operand types its evaluator has a case for). LISTTYPE (every IN / BETWEEN element is typed like the left operand). NUMCOMBO (the converse part: number-with-number, which the checker admits, never ends in an operand-type error whichever of the two operands is the integer and which the float). ",
 		"Completeness and soundness of the operand typing rules themselves are value/type-level facts not decided here.")
 	propTable["C14"].KeyFilter["MUTSITE"] = keyHas("MUTSITE|d|")
 	propTable["C14"].KeyFilter["LISTCOVER"] = keyHas("|in|")
@@ -123,9 +123,9 @@ func init() {
 		"Structural necessary conditions of C16: OP2TABLE (every operator/punctuation token carries the text it stands for and its own offset; two-character operators are recognised from the previous character, which is updated on every iteration; the lexer scans the caller's text unchanged), KWTABLE (words are case-folded as a whole and classified by the table), WORDRESET (the pending-word start/length/offset are re-armed consistently by every arm of the scanner).",
 		"Byte-for-byte preservation of quoted content and full spacing invariance need execution over strings.")
 
-	prop("C17", []string{"POSPROV", "OP2TABLE", "USERIDX", "WORDRESET", "ERRPURE"},
-		"Structural necessary conditions of C17: POSPROV (every position given to an error or stored in a node is -1, 0, a token offset or another node's position, never computed; Token.Pos is written only by the lexer), OP2TABLE (token offsets are offsets into the caller's text), USERIDX (the renderer's window slices are bounded by the rendered text's own length and relate the offset to it). ERRPURE (rendering an error stores nothing into it: a later BindQuery / SetPadding is reflected).",
-		"Caret alignment arithmetic is string arithmetic (DESIGN.md §6).")
+	prop("C17", []string{"POSPROV", "OP2TABLE", "USERIDX", "WORDRESET", "ERRPURE", "CARETALIGN"},
+		"Structural necessary conditions of C17: POSPROV (every position given to an error or stored in a node is -1, 0, a token offset or another node's position, never computed; Token.Pos is written only by the lexer), OP2TABLE (token offsets are offsets into the caller's text), USERIDX (the renderer's window slices are bounded by the rendered text's own length and relate the offset to it). ERRPURE (rendering an error stores nothing into it: a later BindQuery / SetPadding is reflected). CARETALIGN (the caret offset is re-based by exactly what is cut off or put in front of the shown text, on every way the window is chosen; quoted and word tokens report the recorded start offset).",
+		"The remaining caret arithmetic (which 70 bytes are chosen, the caller's padding convention) is string arithmetic (DESIGN.md §6).")
 	propTable["C17"].KeyFilter["OP2TABLE"] = keyHas("|query|", "|pos")
 	propTable["C17"].KeyFilter["USERIDX"] = keyHas("outputQueryAndErrPos", "generatePads")
 
